@@ -51,7 +51,7 @@ func replayC09(c *fw.Ctx, raw json.RawMessage) (string, string) {
 		return "bad-replay", err.Error()
 	}
 	var m, cl string
-	if cs.Mode == "restart" {
+	if cs.Mode == "restart" || cs.Mode == "clash-retry" {
 		m, cl, _ = runRestart(c, cs.Ops, true)
 	} else {
 		m, cl, _ = runStoreDiff(c, cs.Ops, true)
@@ -368,5 +368,43 @@ func runC09(c *fw.Ctx) {
 		}
 		c.Bound(mode+"_depth_completed", completed)
 	}
+	// a write that fails because its name clashes with an existing object, the blocker removed, the write retried:
+	// both directions of the clash, every protocol, the retry as a new request and as the re-sent final chunk of
+	// the same resumable session; restart after every step
+	nclash := 0
+	for _, pair := range [][2]string{{"docs", "docs/x"}, {"docs/x", "docs"}, {"a/b", "a/b/c/d"}, {"a/b/c/d", "a/b"}} {
+		for _, proto := range []string{"media", "multipart", "resumable", "session"} {
+			for _, bystander := range []bool{false, true} {
+				nclash++
+				if !c.Mine(int64(nclash)) {
+					continue
+				}
+				ops := []GOp{{Kind: "CreateBucket", Bucket: "b"},
+					{Kind: "Upload", Proto: "multipart", Bucket: "b", Name: pair[1], Data: []byte("blocker"), Meta: gcs.ObjMeta{ContentType: "text/blocker", Metadata: map[string]string{"b": "1"}}}}
+				if bystander {
+					ops = append(ops, GOp{Kind: "Upload", Proto: "media", Bucket: "b", Name: "docs.txt", Data: []byte("bystander"), Meta: ct})
+				}
+				ops = append(ops, GOp{Kind: "ClashRetry", Proto: proto, Bucket: "b", Name: pair[0], Name2: pair[1], Data: []byte("retried-content"), Meta: gcs.ObjMeta{ContentType: "text/retried", Metadata: map[string]string{"r": "1"}}},
+					GOp{Kind: "List", Bucket: "b"})
+				m, cl, _ := runRestart(c, ops, true)
+				c.Eval(1)
+				c.Trans(1)
+				c.Trace(1)
+				if m != "" {
+					cs := c09Case{Mode: "clash-retry", Ops: ops}
+					c.Violate("C09:clash-retry:"+cl, m+"\n  program: "+GOpsString(ops), cs, func() string {
+						b, _ := json.Marshal(cs)
+						s, _ := replayC09(c, b)
+						return s
+					})
+					c.Outcome("violation:clash-retry")
+					continue
+				}
+				c.State(fw.Hash("clash-retry", GOpsString(ops)))
+				c.Outcome("clash-retry:" + proto)
+			}
+		}
+	}
+	c.Bound("clash_retry_programs", nclash)
 	c.Bound("alphabet", len(alpha))
 }
